@@ -117,8 +117,11 @@ func (e *Engine) writerClosure(pc *PropertyCheck, prop, module string, tables ..
 			entries = append(entries, key)
 			continue
 		}
-		if ct.CallersAssumed != "" {
-			pc.Assumed = append(pc.Assumed, "preconditions of "+key+" assumed at its call sites (callers not under contract): "+ct.CallersAssumed)
+		if why := ct.CallersAssumedFor[prop]; why != "" || ct.CallersAssumed != "" {
+			if why == "" {
+				why = ct.CallersAssumed
+			}
+			pc.Assumed = append(pc.Assumed, "preconditions of "+key+" assumed at its call sites (callers not under contract): "+why)
 			continue
 		}
 		if ct.Reader || !writes(f.closure[fn]) {
